@@ -147,7 +147,9 @@ func checkTypeSystem(c *core.Ctx, orderProp bool) {
 			}
 		}
 	}
-	nvalid, nfaulty, nperm := 60, 240, 0
+	// (C07 also loads every generated case in two further orders / file partitions: consistency of a
+	// loaded schema may not depend on where a union or an extension stands; the order property itself is C17)
+	nvalid, nfaulty, nperm := 60, 240, 2
 	if c.Thorough() {
 		nvalid, nfaulty = 1200, 5000
 	}
